@@ -154,6 +154,9 @@ func equalsV(t types.Type, x, y value) value {
 	if isSym(x) || isSym(y) {
 		return symBinop(token.EQL, x, y)
 	}
+	if isTok(x) || isTok(y) {
+		return tokEq(x, y)
+	}
 	switch x := x.(type) {
 	case bool:
 		return x == y.(bool)
@@ -261,7 +264,7 @@ func (x iface) eqV(t types.Type, _y any) value {
 // hasSym reports whether v contains a symbolic scalar.
 func hasSym(v value) bool {
 	switch x := v.(type) {
-	case sym:
+	case sym, tokstr:
 		return true
 	case structure:
 		for _, e := range x {
@@ -412,6 +415,9 @@ func writeValue(buf *bytes.Buffer, v value) {
 
 	case sym:
 		buf.WriteString(v.String())
+
+	case tokstr:
+		buf.WriteString("<token>")
 
 	case *chanq:
 		fmt.Fprintf(buf, "chan@%p", v)
